@@ -223,8 +223,14 @@ def judge(prog, r):
             what_step = step[0] + (':' + (step[3] if step[0] == 'coll' else (step[2] if isinstance(step[2], str) else step[2][1])) if step[0] in ('coll', 'each', 'attr') else '')
             got, want = (o[k] if k < len(o) else None), (base[k] if k < len(base) else None)
             kind = 'exception' if (got and got[0] != 'v') or (want and want[0] != 'v') else 'value'
-            return ('%s-differs-from-default:%s:%s' % (regime, what_step, kind),
-                    'step %d %s: default observes %s, %s observes %s' % (k, json.dumps(step), json.dumps(want), regime, json.dumps(got)))
+            what = 'step %d %s: default observes %s, %s observes %s' % (k, json.dumps(step), json.dumps(want), regime, json.dumps(got))
+            # root-cause class: an unflushed many-to-many add/remove earlier in the session (flushed by a later query) leaves stale
+            # SetData.added/removed on one side; count() and add()/remove() then behave differently depending on what was loaded
+            changed = any(x[0] in ('add', 'remove') for x in prog['steps'][:k])
+            how = step[3] if step[0] == 'coll' else (step[2][1] if step[0] == 'each' and not isinstance(step[2], str) else None)
+            if changed and step[0] in ('add', 'remove'): return ('m2m-change-then-flush:%s-differs' % step[0], what)
+            if changed and how == 'count': return ('m2m-change-then-flush:count-differs', what)
+            return ('%s-differs-from-default:%s:%s' % (regime, what_step, kind), what)
     return None
 
 
